@@ -216,7 +216,7 @@ package vm
 //@ pred vmOk(vm) = vm != nil && vm.st != nil && state.flagsOk(vm.st) && vm.pg != nil && vm.mn != nil && memOk(vm.ca)
 //@   && vm.rs != nil && vm.pg.menu == vm.mn && (vm.pg.sizer == nil || vm.pg.sizer == vm.sizer) && vm.pg.cache == vm.ca
 //@   && (vm.st.input == nil || !sameBacking(vm.st.input, vm.st.Flags)) && count(flagcount) == int(vm.st.BitSize)
-//@   && (vm.sizer != nil ==> render.sizerOk(vm.sizer))
+//@   && (vm.sizer != nil ==> render.sizerOk(vm.sizer) && vm.pg.sizer == vm.sizer && vm.sizer.memberSizes != cac(vm.ca).Sizes)
 // the page's mapping table is not one of the cache's scope maps
 //@ pred mapSep(vm) = forall(i, 0, levels(vm.ca), cac(vm.ca).Cache[i] != vm.pg.cacheMap)
 //@ pred unmapped(vm) = all[string](k, !in(k, vm.pg.cacheMap)) && vm.pg.sink == nil && vm.pg.extra == ""
@@ -525,6 +525,7 @@ package vm
 //@ pred lockstep(vm) = levels(vm.ca) == depth(vm.st) + 1
 // the Vm keeps its parts
 //@ pred sameParts(vm) = vm.st == old(vm.st) && vm.ca == old(vm.ca) && vm.pg == old(vm.pg) && vm.rs == old(vm.rs) && vm.sizer == old(vm.sizer)
+//@   && (vm.sizer != nil ==> vm.sizer.outputSize == old(vm.sizer.outputSize))
 //@ pred untouched(vm) = posKept(vm) && flagsKept(vm) && count(extcalls) == old(count(extcalls)) && count(codegets) == old(count(codegets)) && levels(vm.ca) == old(levels(vm.ca))
 //@ func (*Vm).Run
 //@   serves C03, C06, C08, C20, C05, C04
@@ -555,3 +556,20 @@ package vm
 //@   callsite opSplit assert[C03] @resumed iterold(fl(vm, state.FLAG_WAIT)) ==> !fl(vm, state.FLAG_INMATCH)
 // ... and the renderer carries nothing over (C05, C07)
 //@   callsite opSplit assert[C05,C07] @fresh iterold(fl(vm, state.FLAG_WAIT)) ==> unmapped(vm) && len(vm.mn.menu) == 0 && !vm.mn.sink
+
+// Render: whatever is returned passed the final size check of the page (C01);
+// a browse error is turned into the catch node's page.
+//@ func (*Vm).Render
+//@   serves C01
+//@   requires vmOk(vm) && noWrap(vm) && render.pageOk(vm.pg) && session(vm)
+//@   requires[C08] lockstep(vm)
+//@   modifies everything
+//@   ensures @vm vmOk(vm)
+//@   ensures @nowrap noWrap(vm)
+//@   ensures @page render.pageOk(vm.pg)
+//@   ensures @parts sameParts(vm)
+//@   ensures @session session(vm)
+//@   ensures[C08] @lockstep lockstep(vm)
+//@   ensures[C01] @fits result1 == nil && vm.sizer != nil && vm.sizer.outputSize > 0 ==> len(result0) <= int(vm.sizer.outputSize)
+//@   ensures[C01] @err result1 != nil ==> result0 == ""
+//@   ensures[C20] @clean !old(fl(vm, state.FLAG_DIRTY)) ==> result0 == "" && result1 == nil && untouched(vm)
